@@ -45,7 +45,13 @@ async def bounded(coro, limit=15.0):
     return task.result()
 
 
-BODY_EXCEPTIONS = (Boom, ConnectionResetError, TimeoutError, ValueError, ConnectionRefusedError, RuntimeError, BrokenPipeError, KeyError)
+class Halt(BaseException):
+    """What an application raises to unwind everything: not an Exception."""
+
+
+# the last two are not Exception subclasses: a task that is cancelled (asyncio.timeout, wait_for, TaskGroup, shutdown) leaves the block that way
+BODY_EXCEPTIONS = (Boom, ConnectionResetError, TimeoutError, ValueError, ConnectionRefusedError, RuntimeError, BrokenPipeError, KeyError,
+                   asyncio.CancelledError, Halt)
 
 
 def legal(history):
@@ -530,6 +536,10 @@ class C18(Prop):
 
                                 eno = {ConnectionResetError: 104, TimeoutError: 110, ConnectionRefusedError: 111, BrokenPipeError: 32}.get(body_exc, 5)
                                 raise body_exc(eno, _os.strerror(eno))
+                            if body_exc is asyncio.CancelledError and rs.random() < 0.7:
+                                # cancelled from outside while the body waits for something (what wait_for / asyncio.timeout / shutdown do)
+                                asyncio.get_running_loop().call_soon(asyncio.current_task().cancel)
+                                await asyncio.Event().wait()
                             raise body_exc("raised by the body of async with")
 
                 try:
